@@ -208,7 +208,7 @@ def random_trees(rep, pid, tier, relevant, n=None, ops=40, opts="two", extra_opt
 
 def c09_render(rep, tier):
     """C09, renderer half: field and struct order under both sort options"""
-    render_pools(rep, "C09", tier, ["plain", "prefixed"], C09_TAGS, opts="all", limit=150 if tier == "quick" else 5000)
+    render_pools(rep, "C09", tier, ["plain", "prefixed", "case", "attrcase"], C09_TAGS, opts="all", limit=120 if tier == "quick" else 5000)
     random_trees(rep, "C09", tier, C09_TAGS, opts="all", remove=0, n=60 if tier == "quick" else 1500, ops=25)
 
 
